@@ -1,95 +1,54 @@
 """C01 - a circuit compiles to the ordered product of its components."""
-import os
-
-from .. import tlc, replay_engine
 from ..common import Check
-from ..tlc import RawTLA, MachineryError
+from ..tlc import RawTLA
+from . import circuit_common as cc
 
 PID = "C01"
 MINE = {"valid_call_raised", "U", "unitary", "dim", "leading_block", "n_modes", "compile"}
-
-BASE = dict(Scenario="single", PNu=3, NObj=1, MaxAnc=0, HeraldNs={0, 1}, Targets={1}, AddPairs=RawTLA("{}"), TmplLoss=False)
+ALLK = {"bs", "ps", "loss", "bar", "swap", "u"}
 
 
 def config(name):
-    c = dict(BASE)
     if name == "A2_full_len2":       # every component kind, every ordered mode pair, both conventions, boundary values, rejects
-        c.update(NUs={2, 3}, Numeric=True, MaxLen=2, MaxRej=1, Kinds={"bs", "ps", "loss", "bar", "swap", "u"},
-                 BadModes={-1, 99, 90, 91}, Rids={0, 1, 2}, Convs={"Rx", "H"}, Lqs={0, 1}, Pids={0, 1, 2, 5},
-                 LossQs={0, 1, 2}, BadVals=True, SwapLevel=3, UIds={"H", "SH", "C3"})
-    elif name == "A2_core_len3":     # loss interleaved anywhere, H on reversed order, length 3, reduced alphabet
-        c.update(NUs={3}, Numeric=True, MaxLen=3, MaxRej=0, Kinds={"bs", "ps", "loss", "swap", "u"},
-                 BadModes=RawTLA("{}"), Rids={1}, Convs={"Rx", "H"}, Lqs={0}, Pids={1}, LossQs={1},
-                 BadVals=False, SwapLevel=1, UIds={"SH"})
-    elif name == "A2_len3_4modes":   # thorough
-        c.update(NUs={4}, Numeric=True, MaxLen=3, MaxRej=0, Kinds={"bs", "ps", "loss", "swap", "u", "bar"},
-                 BadModes=RawTLA("{}"), Rids={0, 1}, Convs={"Rx", "H"}, Lqs={0, 1}, Pids={1, 6}, LossQs={1, 2},
-                 BadVals=False, SwapLevel=2, UIds={"SH", "C3"})
-    elif name == "A1_struct_len3":   # structure only, full alphabet, numbers by the evaluator during replay
-        c.update(NUs={3}, Numeric=False, MaxLen=3, MaxRej=1, Kinds={"bs", "ps", "loss", "bar", "swap", "u"},
-                 BadModes={-1, 99, 90, 91}, Rids={0, 1, 2}, Convs={"Rx", "H"}, Lqs={0, 1}, Pids={0, 1, 2, 5},
-                 LossQs={0, 1, 2}, BadVals=True, SwapLevel=3, UIds={"H", "SH", "C3"})
-    elif name == "A1_struct_len4":   # thorough
-        c.update(NUs={3}, Numeric=False, MaxLen=4, MaxRej=1, Kinds={"bs", "ps", "loss", "swap", "u"},
-                 BadModes={99}, Rids={0, 1}, Convs={"Rx", "H"}, Lqs={0, 1}, Pids={1, 5},
-                 LossQs={1, 2}, BadVals=False, SwapLevel=1, UIds={"SH"})
-    return c
+        return cc.consts_of(NUs={2, 3}, Numeric=True, MaxLen=2, MaxRej=1, Kinds=ALLK, BadModes={-1, 99, 90, 91}, Rids={0, 1, 2},
+                            Convs={"Rx", "H"}, Lqs={0, 1}, Pids={0, 1, 2, 5}, LossQs={0, 1, 2}, BadVals=True, SwapLevel=3, UIds={"H", "SH", "C3"})
+    if name == "A2_core_len3":       # loss interleaved anywhere, H on reversed order, length 3, reduced alphabet
+        return cc.consts_of(NUs={3}, Numeric=True, MaxLen=3, Kinds={"bs", "ps", "loss", "swap", "u"}, Rids={1}, Convs={"Rx", "H"},
+                            Lqs={0}, Pids={1}, LossQs={1}, SwapLevel=1, UIds={"SH"})
+    if name == "A2_len3_4modes":     # thorough
+        return cc.consts_of(NUs={4}, Numeric=True, MaxLen=3, Kinds=ALLK, Rids={0, 1}, Convs={"Rx", "H"}, Lqs={0, 1}, Pids={1, 6},
+                            LossQs={1, 2}, SwapLevel=2, UIds={"SH", "C3"})
+    if name == "A1_struct_len3":     # structure only, full alphabet, numbers by the evaluator during replay
+        return cc.consts_of(NUs={3}, Numeric=False, MaxLen=3, MaxRej=1, Kinds=ALLK, BadModes={-1, 99, 90, 91}, Rids={0, 1, 2},
+                            Convs={"Rx", "H"}, Lqs={0, 1}, Pids={0, 1, 2, 5}, LossQs={0, 1, 2}, BadVals=True, SwapLevel=3, UIds={"H", "SH", "C3"})
+    raise KeyError(name)
 
 
-def model_and_replay(chk, name, frac, timeout, numeric_invs=True, limit=None):
-    consts = config(name)
-    wd = tlc.workdir("C01_" + name)
-    tlc.copy_specs(wd, {"LwRing", "LwMatrix", "LwCircuitDefs", "LwCircuit"})
-    tlc.write_mc(wd, "MC", "LwCircuit", consts)
-    invs = ["UnitaryInv", "DimInv", "SemAgrees"] if consts["Numeric"] else ["InputModesInv"]
-    tlc.write_cfg(wd, "MC", consts, invariants=invs, properties=["FrameProp", "RejectFrame"])
-    res = tlc.run(wd, "MC", dump=True, timeout=timeout)
-    tlc.require_clean_run(res, "C01 " + name)
-    chk.add_tlc(name, res, "invariants %s, properties FrameProp RejectFrame" % invs)
-    for v in res.violations:
-        # a model-level violation means the specification itself is inconsistent: machinery problem, not a code defect
-        raise MachineryError("specification %s violates %s" % (name, v["name"]))
-    ops = replay_engine.count_ops(res.dump)
-    missing = [k for k in consts["Kinds"] if ops.get(k, 0) == 0]
-    if consts["MaxRej"] > 0 and ops.get("rej", 0) == 0:
-        missing.append("rej")
-    if missing:
-        raise MachineryError("vacuity: actions never taken in %s: %s" % (name, missing))
-    ctx = {"scenario": "single", "numeric": bool(consts["Numeric"])}
-    n = 0
-    calib = 0.0
-    for r in replay_engine.replay_dump(res.dump, "harness.adapters.circuit", "dump_worker", ctx, frac=frac, seed=chk.seed, limit=limit):
-        n += 1
-        calib = max(calib, r["calib"])
-        chk.count(key=repr(r["prog"]), nontrivial=len(r["prog"]) > 0 and r["op"] != "rej")
-        if n % 997 == 1:
-            chk.sample({"config": name, "program": r["prog"]})
-        if r["drift"]:
-            chk.drift.append(r["drift"])
-        for clause, step, detail in r["findings"]:
-            if clause in MINE:
-                chk.violation(clause, detail, script={"module": "LwCircuit", "config": name, "prog": r["prog"], "step": step},
-                              sig={"clause": clause})
-    chk.traces_validated += n
-    if calib > 1e-12:
-        raise MachineryError("evaluator calibration failed on %s: max |ev - TLC| = %.3g" % (name, calib))
-    chk.add_phase("replay " + name, programs=n, sampled_fraction=frac, evaluator_calibration_max_err=calib, op_counts=dict(ops))
-    exhaustive = frac >= 1.0 and limit is None
-    tlc.cleanup("C01_" + name)
-    return exhaustive
+NUM_INV = ["UnitaryInv", "DimInv", "SemAgrees"]
+PROPS = ["FrameProp", "RejectFrame"]
 
 
 def run(tier):
     chk = Check(PID, tier)
-    chk.rule = ("programs = reachable states of LwCircuit (Scenario single); every dumped state is a construction program with "
-                "its expected abstract circuit and exact transfer matrix; non-trivial = program ends in an accepted call; "
-                "distinct = distinct call sequences")
-    ex = model_and_replay(chk, "A2_full_len2", 1.0 if tier == "thorough" else 0.35, 600)
-    model_and_replay(chk, "A2_core_len3", 1.0 if tier == "thorough" else 0.5, 600)
-    if tier == "thorough":
-        model_and_replay(chk, "A2_len3_4modes", 0.2, 3000)
-        model_and_replay(chk, "A1_struct_len3", 0.05, 1800)
-    chk.exhaustive = False
+    chk.rule = ("cases = construction programs: (a) reachable states of LwCircuit (Scenario single) dumped by TLC with expected abstract "
+                "circuit and exact transfer matrix, replayed into lightworks; (b) histories recorded from random drivers on real "
+                "circuits, validated by LwCircuitTrace. non-trivial = ends in an accepted call (a) / more than 3 calls (b); distinct = "
+                "distinct call sequences")
+    th = tier == "thorough"
+    ctx = {"scenario": "single", "numeric": True}
+    cc.dump_phase(chk, PID, "A2_full_len2", config("A2_full_len2"), NUM_INV, PROPS, MINE, 1.0 if th else 0.3, 900, ctx)
+    cc.dump_phase(chk, PID, "A2_core_len3", config("A2_core_len3"), NUM_INV, PROPS, MINE, 1.0 if th else 0.4, 900, ctx)
+    if th:
+        cc.dump_phase(chk, PID, "A2_len3_4modes", config("A2_len3_4modes"), NUM_INV, PROPS, MINE, 0.1, 3000, ctx)
+        cc.dump_phase(chk, PID, "A1_struct_len3", config("A1_struct_len3"), ["InputModesInv"], PROPS, MINE, 0.02, 3000,
+                      {"scenario": "single", "numeric": False})
+    cc.script_phase(chk, PID, "findings", cc.load_corpus(PID), MINE)
+    cc.trace_phase(chk, PID, "components_ring", 2000 if th else 320, "components", MINE, numeric=True)
+    cc.trace_phase(chk, PID, "components_float", 3000 if th else 400, "components", MINE, numeric=False)
     chk.assumptions = ["TLC 1.8 + CommunityModules", "TLA+ value parser", "evaluator ev.py (calibrated against TLC in this run)",
-                       "documented component matrices transcribed in LwMatrix.BsBlock/LossBlock from docs/sdk"]
+                       "documented component matrices transcribed in LwMatrix.BsBlock / LossBlock from docs/sdk"]
     return chk.finish()
+
+
+def replay_file(path):
+    return cc.replay_file(PID, path, MINE)
